@@ -50,6 +50,32 @@ class CustomBase(JsonRpcError):
     """a client-side base class supplied as error_cls (not registered: no code)"""
 
 
+class HierV1(JsonRpcError):
+    """documented pattern 'independent clients errors': a base class with its own code -> class resolution"""
+    @classmethod
+    def get_error_cls(cls, code, default):
+        return next(iter((c for c in cls.__subclasses__() if getattr(c, 'code', None) == code)), default)
+
+
+class V1Denied(HierV1):
+    code = 7101
+    message = 'v1 denied'
+
+
+class HierV2(JsonRpcError):
+    @classmethod
+    def get_error_cls(cls, code, default):
+        return next(iter((c for c in cls.__subclasses__() if getattr(c, 'code', None) == code)), default)
+
+
+class V2NotFound(HierV2):
+    code = 7101
+    message = 'v2 not found'
+
+
+BASES = {'JsonRpcError': JsonRpcError, 'CustomBase': CustomBase, 'HierV1': HierV1, 'HierV2': HierV2}
+
+
 def absent(v):
     return isinstance(v, str) and v == A
 
@@ -70,15 +96,15 @@ def gen_cases(ctx):
         for v in vals:
             yield dict(part='response', id=i, result=v)
     # errors, alone and inside responses
-    registry = sorted(STANDARD) + HARNESS_CODES
+    registry = sorted(STANDARD) + HARNESS_CODES + [7101]
     codes = registry + [1, -1, 12345, 2 ** 63, -32001]
     for code, msg in itertools.product(codes, ['m', '', 'é☃']):
         for d in [A] + vals:
-            for base in ('JsonRpcError', 'CustomBase'):
+            for base in BASES:
                 yield dict(part='error', code=code, message=msg, data=d, base=base)
         for d in [A, None, 0, '', [], {}, [1, {'a': None}]]:
             for i in IDS[:5]:
-                for base in ('JsonRpcError', 'CustomBase'):
+                for base in BASES:
                     yield dict(part='response', id=i, error=dict(code=code, message=msg, data=d), base=base)
     # batches
     relems = [dict(method='m', id=1, params=[1]), dict(method='m', id=2, params='<none>'), dict(method='n', id=None, params={'a': None}),
@@ -90,10 +116,10 @@ def gen_cases(ctx):
         for idx in itertools.permutations(range(len(relems)), n):
             yield dict(part='batchreq', elems=[relems[i] for i in idx])
         for idx in itertools.permutations(range(len(selems)), n):
-            for base in ('JsonRpcError', 'CustomBase'):
+            for base in BASES:
                 yield dict(part='batchresp', elems=[selems[i] for i in idx], base=base)
     for code, msg, d in itertools.product(codes, ['m', ''], [A, None, 0, [1]]):
-        for base in ('JsonRpcError', 'CustomBase'):
+        for base in BASES:
             yield dict(part='batcherr', error=dict(code=code, message=msg, data=d), base=base)
 
 
@@ -121,6 +147,10 @@ def expected_cls(code, base):
     """the class registered for a code - known independently of the library's registry: the six standard classes and
     the classes this harness defined (a class statement with a code is what registers a class)"""
     import pjrpc.common.exceptions as exc
+    if base in (HierV1, HierV2):
+        return {HierV1: V1Denied, HierV2: V2NotFound}[base] if code == 7101 else base
+    if code == 7101:
+        return V2NotFound          # process-wide registry: the class defined last for a code
     if code in STANDARD:
         return getattr(exc, STANDARD[code])
     if code in HARNESS_CODES:
@@ -245,7 +275,7 @@ def mk_response(c):
 
 
 def run_response(c):
-    base = CustomBase if c.get('base') == 'CustomBase' else JsonRpcError
+    base = BASES[c.get('base') or 'JsonRpcError']
     x = mk_response(c)
     w, text = wire_value(x, None)
     resp_wire_check(w, c)
@@ -255,7 +285,7 @@ def run_response(c):
 
 
 def run_error(c):
-    base = CustomBase if c['base'] == 'CustomBase' else JsonRpcError
+    base = BASES[c['base']]
     x = mk_error(c, JsonRpcError)
     w, text = wire_value(x, None)
     check_error_wire(w, c)
@@ -291,7 +321,7 @@ def run_batchreq(c):
 
 
 def run_batchresp(c):
-    base = CustomBase if c['base'] == 'CustomBase' else JsonRpcError
+    base = BASES[c['base']]
     elems = c['elems']
     x = BatchResponse(*[mk_response(e) for e in elems])
     w, text = wire_value(x, None)
@@ -310,7 +340,7 @@ def run_batchresp(c):
 
 
 def run_batcherr(c):
-    base = CustomBase if c['base'] == 'CustomBase' else JsonRpcError
+    base = BASES[c['base']]
     x = BatchResponse(error=mk_error(c['error']))
     w, text = wire_value(x, None)
     resp_wire_check(w, dict(id=None, error=c['error']))
